@@ -140,7 +140,7 @@ func msgHash(i int) string { return refHash([]byte(fmt.Sprintf("message-%d", i))
 
 // listOutcomes copies the distinct outcome classes into the evidence (when few enough to read).
 func listOutcomes(run *ev.Run) {
-	if len(run.Distinct) > 800 {
+	if len(run.Distinct) > 2000 {
 		return
 	}
 	var ks []string
